@@ -560,11 +560,26 @@ class SymbolValue(Value):
 
     def resolve(self, symbol_table):
         symbol = self.get_symbol(self.value, symbol_table)
+        seen = [self.value]
+        while symbol.is_symbol():
+            # a symbol defined as another symbol: follow the chain of definitions
+            if symbol.value in seen:
+                raise ValueError("[{}] is defined in terms of itself".format(self.value))
+            seen.append(symbol.value)
+            symbol = self.get_symbol(symbol.value, symbol_table)
+
+        if symbol.is_expression() or symbol.is_address_expression():
+            symbol = symbol.resolve(symbol_table)
+            if symbol.is_address_expression():
+                return symbol
+
         if symbol.is_address():
             return AddressValue(symbol.int)
 
         if symbol.is_numeric():
-            return NumericValue(symbol.int)
+            return NumericValue(-symbol.int if symbol.is_negative() else symbol.int)
+
+        raise ValueError("[{}] cannot be resolved to a value".format(self.value))
 
     def is_8_bit(self):
         return False
@@ -647,8 +662,8 @@ class ExpressionValue(Value):
             mode = ExplicitAddressingMode.EXTENDED
 
         if self.right.is_numeric() and self.left.is_numeric():
-            left = self.left.int
-            right = self.right.int
+            left = -self.left.int if self.left.is_negative() else self.left.int
+            right = -self.right.int if self.right.is_negative() else self.right.int
 
             if self.operation == "+":
                 self.value = NumericValue("{}".format(left + right), mode=mode)
@@ -685,6 +700,8 @@ class ExpressionValue(Value):
     def calculate_address_offset(self, statements):
         left = statements[self.left.int].code_pkg.address.int if self.left.is_address() else self.left.int
         right = statements[self.right.int].code_pkg.address.int if self.right.is_address() else self.right.int
+        left = -left if self.left.is_negative() else left
+        right = -right if self.right.is_negative() else right
         if self.operation == "+":
             return NumericValue(left + right, size_hint=4, mode=ExplicitAddressingMode.EXTENDED)
         elif self.operation == "-":
